@@ -25,6 +25,12 @@ def smart_pre_sync_gate(w: World):
         check(r is True, "an unrequested remote-only file is finished without being synced")
     if requested or remote_is_dir or local_file:
         check(len(sup) == 1 and (r is True or r is False), "requested entries, local files and folders go through the normal pre-sync")
+        check(r == sup[0].result, "and the gate reports exactly what the normal pre-sync reported")
+    ns = notifications()
+    if r is not True:
+        check(len(ns) == 0, "an entry that goes on to be synced is not reported as set aside")
+    elif truthy(sync[REMOTE].path):
+        check(len(ns) == 1, "an entry finished at the gate whose remote path is known is reported once")
 
 
 @lemma(props=["C20", "C12"], configs="none", raises=["Exception"], smart=True)
@@ -44,6 +50,8 @@ def smart_unsync_touches_local_only(w: World):
     for c in ws:
         check(c.method == "delete" and c.side == LOCAL, "the write is a local delete")
         check(len(infos) == 1 and infos[0].args[0] == lp and c.args[0] == infos[0].result.oid, "of the object found at the entry's local path")
+    if lp and len(infos) == 1 and infos[0].ok and infos[0].result is not None:
+        check(len(ws) == 1, "a local copy that is there is deleted")
     if lp:
         check(ent[LOCAL].oid is None and ent[LOCAL].path is None, "the local side is cleared")
         check(ent[REMOTE].sync_path is None and ent[REMOTE].sync_hash is None, "the remote side is marked unsynced, not deleted")
